@@ -1286,6 +1286,17 @@ class ErrorSnapshot:
         with open(filename, "rb") as f:  # noqa: PTH123
             return cloudpickle.load(f)
 
+    def __getstate__(self) -> dict:
+        # The function is pickled by value (like `PipeFunc.func`), a function that
+        # is wrapped by the `pipefunc` decorator cannot be pickled by reference.
+        state = self.__dict__.copy()
+        state["function"] = cloudpickle.dumps(self.function)
+        return state
+
+    def __setstate__(self, state: dict) -> None:
+        self.__dict__.update(state)
+        self.function = cloudpickle.loads(self.function)
+
     def _ipython_display_(self) -> None:  # pragma: no cover
         from IPython.display import HTML, display
 
